@@ -15,6 +15,7 @@ import threading
 from typing import Any, Callable, List, Optional, Tuple
 
 SCHED: Optional["TSched"] = None
+HORIZON = 60000  # scheduling points per execution (the longest execution of the unchanged tree has a few thousand)
 
 
 class Deadlock(Exception):
@@ -123,6 +124,11 @@ class TSched:
                 t.thread = threading.Thread(target=self._run_thread, args=(t,), daemon=True, name="worker_0")
                 t.thread.start()
             while any(not t.done for t in self.threads):
+                if self.npoints > HORIZON:
+                    # explicit horizon: a thread that loops for ever THROUGH scheduling points (a spinning scheduler under line-level
+                    # tracing) would make this one execution infinite
+                    self.outcome = "livelock"
+                    break
                 en = self.enabled()
                 if not en:
                     self.outcome = "deadlock"
